@@ -10,6 +10,7 @@
 //
 //	op = [1,from,to,index,T,g,count,proofok]     request (g=0: no group; else Group with `count` keys identified by g)
 //	     [2,from,to,index,kind,proofok]          receipt, kind 1 success 2 failure 3 rollback 4 rollback_end
+//	     [2,from,to,index,kind,proofok,g,count]  the same receipt carrying a Group field
 //	     [3]                                     unrelated transfer
 //	     [4,m,a,b,c,d]                           public BVM call, m: 1 GetInterchain(svc a) 2 DeleteInterchain(svc a) 3 Register(svc a)
 //	                                             4 GetIBTPByID(id a,b,c ; isReq d) 5 HandleIBTPData(request a,b,c) 6 TransactionMgr.Begin(id a,b,c) by an outsider
@@ -388,11 +389,15 @@ func runHistory(line []byte) (interface{}, error) {
 				}
 				txs = append(txs, mkIBTP(in(op[1]), in(op[2]), u64(op[3]), pb.IBTP_INTERCHAIN, i64(op[4]), grp, nil, in(op[7]) != 0))
 			case 2:
-				if len(op) != 6 {
+				if len(op) != 6 && len(op) != 8 {
 					return fail("bad receipt op")
 				}
 				typ := map[int]pb.IBTP_Type{1: pb.IBTP_RECEIPT_SUCCESS, 2: pb.IBTP_RECEIPT_FAILURE, 3: pb.IBTP_RECEIPT_ROLLBACK, 4: pb.IBTP_RECEIPT_ROLLBACK_END}[in(op[4])]
-				txs = append(txs, mkIBTP(in(op[1]), in(op[2]), u64(op[3]), typ, 0, nil, nil, in(op[5]) != 0))
+				var rgrp *pb.StringUint64Map
+				if len(op) == 8 {
+					rgrp = groupOf(u64(op[6]), u64(op[7])) // a receipt that carries a Group field
+				}
+				txs = append(txs, mkIBTP(in(op[1]), in(op[2]), u64(op[3]), typ, 0, rgrp, nil, in(op[5]) != 0))
 			case 3:
 				txs = append(txs, hx.TransferTx(c.Admins[0], nonceA, hx.Addr(outsider), "1"))
 				nonceA++
